@@ -9,4 +9,4 @@ Extraction "../ocaml/C08/model.ml" Anchor.anchor Model.new_state Model.step Mode
   Model.read Model.ask Model.fempty Model.ripemd
   ModelSnap.snew_state ModelSnap.sstep ModelSnap.scommit ModelSnap.scopy ModelSnap.tree_update
   ModelSnap.snap_update ModelSnap.snap_cap ModelSnap.snap_cap_regs ModelSnap.snap_account ModelSnap.snap_storage
-  ModelSnap.empty_disk.
+  ModelSnap.empty_disk ModelSnap.sync_ok.
